@@ -289,7 +289,7 @@ class SchemaValidator:
     ) -> None:
         try:
             sig = signature(resolver)
-        except ValueError:
+        except (ValueError, TypeError):
             # In some cases (mostly C Extensions) this can fail, in this case
             # we fallback to the previous behaviour of not validating and
             # assuming correctness.
@@ -297,6 +297,9 @@ class SchemaValidator:
             # (https://github.com/cython/cython/issues/2983)
             return
 
+        # The resolver is called as `resolver(root, context, info, **arguments)`
+        # where `arguments` always contains the required arguments and the ones
+        # with a default value, and may contain the other ones.
         params = list(sig.parameters.values())
 
         accepts_arbitrary_params = any(
@@ -307,25 +310,65 @@ class SchemaValidator:
             p for p in params if p.kind is Parameter.VAR_KEYWORD
         )
 
-        known_param_names = [arg.python_name for arg in args]
+        positional_params = [
+            p for p in params if p.kind in POSITIONAL_PARAM_KINDS
+        ]
+
+        # Parameters receiving the (root, context, info) positional values.
+        leading_params = positional_params[:3]
+
+        if not accepts_arbitrary_params and len(positional_params) < 3:
+            self.add_error(
+                'Resolver for "%s" must accept 3 positional parameters, found (%s)'
+                % (
+                    path,
+                    quoted_options_list(
+                        [p.name for p in positional_params], "and",
+                    ),
+                )
+            )
+
+        # Parameters which can receive an argument passed by keyword.
+        keyword_params = {
+            p.name: p
+            for p in params
+            if p.kind in (Parameter.POSITIONAL_OR_KEYWORD, Parameter.KEYWORD_ONLY)
+            and p not in leading_params
+        }
+
+        provided_param_names = set()  # type: Set[str]
 
         for arg in args:
-            try:
-                param = sig.parameters[arg.python_name]
-            except KeyError:
-                if not accepts_arbitrary_kw_params:
+            param = keyword_params.get(arg.python_name)
+
+            if param is None:
+                clash = sig.parameters.get(arg.python_name)
+                if (
+                    clash in leading_params
+                    and clash.kind is Parameter.POSITIONAL_OR_KEYWORD
+                ):
                     self.add_error(
-                        'Missing resolver parameter for argument "%s" on "%s"'
-                        % (arg.name, path,)
+                        'Argument "%s" on "%s" collides with a positional '
+                        "resolver parameter" % (arg.name, path,)
                     )
-            else:
-                if param.kind is Parameter.POSITIONAL_ONLY:
+                elif (
+                    clash is not None
+                    and clash.kind is Parameter.POSITIONAL_ONLY
+                    and not accepts_arbitrary_kw_params
+                ):
                     # In practice this is a 3.8+ only concern.
                     self.add_error(
                         'Resolver parameter for argument "%s" on "%s" '
                         "must not be positional only" % (arg.name, path,)
                     )
-                elif (
+                elif not accepts_arbitrary_kw_params:
+                    self.add_error(
+                        'Missing resolver parameter for argument "%s" on "%s"'
+                        % (arg.name, path,)
+                    )
+            else:
+                provided_param_names.add(param.name)
+                if (
                     param.default is Parameter.empty
                     and (not arg.has_default_value)
                     and (not arg.required)
@@ -338,28 +381,14 @@ class SchemaValidator:
                         '"%s" must have a default' % (arg.name, path,)
                     )
 
-        remaining = [
-            p
-            for p in params
-            if p.name not in known_param_names and p.kind not in VAR_PARAM_KINDS
-        ]
+        for param in params:
+            if (
+                param.kind in VAR_PARAM_KINDS
+                or param in leading_params
+                or param.name in provided_param_names
+            ):
+                continue
 
-        remaining_positional = [
-            p for p in remaining if p.kind in POSITIONAL_PARAM_KINDS
-        ]
-
-        if not accepts_arbitrary_params and len(remaining_positional) < 3:
-            self.add_error(
-                'Resolver for "%s" must accept 3 positional parameters, found (%s)'
-                % (
-                    path,
-                    quoted_options_list(
-                        [p.name for p in remaining_positional], "and",
-                    ),
-                )
-            )
-
-        for param in remaining[3:]:
             if param.default is Parameter.empty:
                 self.add_error(
                     'Required resolver parameter "%s" on "%s" does not match '
